@@ -54,9 +54,24 @@ REQUIRED = [NS + n for n in (
     "C06_idempotent_fill", "C06_crc_partial_fill", "C06_pure", "C06_persistent_kept", "C06_leak_if_unreset")]
 
 # members the model declares not to be reset / not always live (must mirror Xmp.Reset.Dead / Live; checked by drv output)
-MODEL_DEAD = {"s_pbase", "p_buffer_data_in_buffer", "m_xxo_info_start_row"}
-MODEL_PARTIAL = {"m_xxo_info_speed", "m_xxo_info_bpm", "m_xxo_info_gvl", "m_xxo_info_st26_speed",
-                 "m_seq_data_entry_point", "m_seq_data_duration"}
+MODEL_DEAD = set()       # filled from the driver (`sets`): Xmp.Reset.Dead
+MODEL_PARTIAL = set()    # Xmp.Reset.PartialField
+MODEL_B = set()          # Xmp.Reset.B: members that must not change while a module is played
+# the FAR tempo/vibrato extras behind m.extra are player-run state (restored by libxmp_reset_module_extras)
+RUN_STATE_POINTEES = {"m_extra"}
+
+
+def load_model_sets(ck):
+    if not getattr(ck, "lean_ok", False):
+        return
+    for l in vlib.run_driver("drv_c06", "sets\n"):
+        f = l.split()
+        if f and f[0] == "setDead":
+            MODEL_DEAD.update(f[1:])
+        elif f and f[0] == "setPartial":
+            MODEL_PARTIAL.update(f[1:])
+        elif f and f[0] == "setB":
+            MODEL_B.update(f[1:])
 # opaque pointee (format specific), compared by NULL-ness only
 OPAQUE = {"m_extra"}
 
@@ -152,7 +167,7 @@ def check_reset(ck, exe, mods, fields, ncases, maxhist, nshards):
     results = vlib.pmap(run_shard, shards)
     st = {"hist_cases": 0, "hist_compared": 0, "op_cases": 0, "op_compared": 0, "op_skipped": 0, "load_failed": 0, "frames": 0,
           "restart_cases": 0, "image_leaves_compared": 0, "model_values_compared": 0, "model_values_external": 0, "nonsilent_cases": 0}
-    opkinds, dead_seen, hist_states = {}, {}, {}
+    opkinds, dead_seen, hist_states, played_seen = {}, {}, {}, {}
     for (rc, out, err), sh in zip(results, shards):
         if rc != 0:
             sig = vlib.sanitizer_signature(err)
@@ -244,6 +259,10 @@ def check_reset(ck, exe, mods, fields, ncases, maxhist, nshards):
             ck.sample({"case": c["head"], "history_ops": sum(1 for l in lines if l.startswith("H ")),
                        "frames": frames, "dead_members_differing": sorted({d[1] for d in diffs})}, limit=4)
             unexpected = [d for d in diffs if d[1] not in MODEL_DEAD and d[1] not in MODEL_PARTIAL]
+            played = [l.split() for l in lines if l.startswith("diff_played ")]
+            for d in played:
+                played_seen[d[1]] = played_seen.get(d[1], 0) + 1
+            unexpected += [d for d in played if d[1] in MODEL_B and d[1] not in RUN_STATE_POINTEES]
             for d in diffs:
                 dead_seen[d[1]] = dead_seen.get(d[1], 0) + 1
             if fails:
@@ -258,9 +277,10 @@ def check_reset(ck, exe, mods, fields, ncases, maxhist, nshards):
             elif unexpected:
                 d = unexpected[0]
                 ck.unproved("correspondence Reset.load/startPlayer reset set vs the real context image",
-                            "case %s: member %s differs between the reused and the fresh context after load;start "
-                            "(index %s: fresh %s reused %s) but the model says it is reset; replay script:\n%s" % (
-                                c["head"], path_of(d[1], leaves), d[2], d[3], d[4], replay_text_hist(c)))
+                            "case %s: %s: member %s differs between the reused and the fresh context "
+                            "(index %s: fresh %s reused %s) but the model says it is %s; replay script:\n%s" % (
+                                c["head"], d[0], path_of(d[1], leaves), d[2], d[3], d[4],
+                                "not changed by playing (set B)" if d[0] == "diff_played" else "reset", replay_text_hist(c)))
             elif compared:
                 ck.cov["traces_validated_against_impl"] += 1
     for k, v in st.items():
@@ -268,6 +288,7 @@ def check_reset(ck, exe, mods, fields, ncases, maxhist, nshards):
     ck.note("reset_op_kinds", opkinds)
     ck.note("reset_unreset_members_seen_differing", dead_seen)
     ck.note("reset_history_end_states", hist_states)
+    ck.note("reset_members_changed_by_playing", played_seen)
 
 
 def check_regressions(ck, exe):
@@ -365,6 +386,7 @@ def run(ck):
     ck.note("writable_globals", ["%s:%s" % (g["file"], g["name"]) for g in globs["globals"]])
     ck.proofs(["XmpProps.C06"], required=REQUIRED, drivers=["drv_c06"])
 
+    load_model_sets(ck)
     mods = pick_modules(ck, 40 if quick else 140)
     ck.note("modules", len(mods))
     ex_reset = build("c06_reset")
